@@ -545,3 +545,76 @@ func vpC17_O6() {
 	}
 	vpAssert("quasi-safe-prime-product verdict is the conjunction of gates and sub-proofs", got == want)
 }
+
+func init() {
+	vpHarnesses["vpC17_O7"] = vpC17_O7
+}
+
+// C17-O7: the proof that the public bases are squares modulo N (isSquareProof),
+// for the concrete toy key N = 23*47 with the bases 4, 9 (and 541 if the real
+// ModSqrt finds it to be a square) - the roots are computed by the real ModSqrt -
+// in the symbolic proof group:
+// completeness; rejection of an altered leaf (a root or square commitment, a
+// response, a leaf of a root-validity multiplication proof or root range proof),
+// of a verifier structure made for another modulus or another base list, and of
+// a proof with a missing part.
+func vpC17_O7() {
+	g := vpGroup()
+	P, Q := big.NewInt(23), big.NewInt(47)
+	N := new(big.Int).Mul(P, Q)
+	bases := []*big.Int{big.NewInt(4), big.NewInt(9), big.NewInt(541)}
+	// keep only quadratic residues (the real ModSqrt decides); 4 and 9 always are
+	var squares []*big.Int
+	for _, b := range bases {
+		if _, ok := common.ModSqrt(b, []*big.Int{P, Q}); ok {
+			squares = append(squares, b)
+		}
+	}
+	ps := newIsSquareProofStructure(N, squares)
+	list, commit := ps.commitmentsFromSecrets(g, nil, P, Q)
+	challenge := common.HashCommit(list, false)
+	proof := ps.buildProof(g, challenge, commit)
+
+	vs := ps
+	tamper := vpChoose("tamper", 10)
+	d := vpBigRange("delta", big.NewInt(1), new(big.Int).Lsh(big.NewInt(1), 100))
+	structureBroken := false
+	switch tamper {
+	case 1:
+		proof.RootsProof[0].Commit = vpAddBig(proof.RootsProof[0].Commit, d)
+	case 2:
+		proof.SquaresProof[1].Sresult.Result = vpAddBig(proof.SquaresProof[1].Sresult.Result, d)
+	case 3:
+		proof.NProof.Hresult.Result = vpAddBig(proof.NProof.Hresult.Result, d)
+	case 4:
+		proof.RootsValidProof[0].Hider.Result = vpAddBig(proof.RootsValidProof[0].Hider.Result, d)
+	case 5:
+		vpTamperRange(proof.RootsRangeProof[1], ps.rootsRange[1].rangeSecret, vpChoose("round", rangeProofIters), d)
+	case 6: // verifier's structure is for another modulus
+		vs = newIsSquareProofStructure(vpAddBig(N, big.NewInt(2)), squares)
+	case 7: // ... or for another base list (one base replaced)
+		other := append([]*big.Int{}, squares...)
+		other[0] = vpAddBig(other[0], big.NewInt(1))
+		vs = newIsSquareProofStructure(N, other)
+	case 8:
+		proof.RootsProof = proof.RootsProof[:len(proof.RootsProof)-1]
+		structureBroken = true
+	case 9:
+		proof.RootsValidProof[1].ModMultProof.Commit = nil
+		structureBroken = true
+	}
+	structureOK := vs.verifyProofStructure(proof)
+	if structureBroken {
+		vpAssert("an is-square proof with a missing part fails the structure check", !structureOK)
+		return
+	}
+	vpAssert("is-square proof structure check passes", structureOK)
+	vlist := vs.commitmentsFromProof(g, nil, challenge, proof)
+	accepted := challenge.Cmp(common.HashCommit(vlist, false)) == 0
+	if tamper == 0 {
+		vpAssert("honest is-square proof: reconstructed commitments equal the prover's", vpSameList(list, vlist))
+		vpAssert("honest is-square proof is accepted", accepted)
+	} else {
+		vpAssert("an altered is-square proof is rejected", !accepted)
+	}
+}
